@@ -105,15 +105,15 @@ theorem visit_uses_registered_temporaries (cfg : Config) (f : Nat) (root : Bool)
     ∀ k ∈ s.idents, k ∈ (visit cfg f root n s).2.idents :=
   visit_T cfg f root n s h
 
-/-- **C06, "assigned before it is read" (partial: programs without optional chaining).**  Erasing the
+/-- **C06, "assigned before it is read" (partial: programs none of whose optional chains is lowered).**  Erasing the
     instrumentation resolves every read of a temporary through the environment built from the
     assignments met before it, in evaluation order (sequence elements left to right, the hook's first
     argument after the hoisted operands, a block's bindings not leaving the block).  For every
-    configuration, fuel and well-formed source program without optional chaining whose rewrite is reported
+    configuration, fuel and well-formed source program with no lowered optional chain whose rewrite is reported
     modified, no temporary is left in the erased output: every read was preceded by an assignment of the same
     temporary in the same block.  (Corollary of `C02.erasing_the_instrumentation_gives_back_the_input_partial`.) -/
 theorem every_temporary_read_is_assigned_before_partial (cfg : Config) (fuel : Nat) (p : Node)
-    (hs : srcOk p = true) (hno : noOpt p = true) (hnb : isBlockNode p = false)
+    (hs : srcOk p = true) (hno : noOpt cfg p = true) (hnb : isBlockNode p = false)
     (hm : (transformProgram cfg fuel p).status = .modified) :
     hasTemp (eraseProgram (prologue cfg.dsts) (transformProgram cfg fuel p).out) = false := by
   have h := (C02.erasing_the_instrumentation_gives_back_the_input_partial cfg fuel p hs hno hnb hm).1
